@@ -16,6 +16,7 @@ def genFacts : Facts :=
     iterateStopReturns := Generated.c17IterateStopReturns
     iterateOnlyNexts := Generated.c17IterateOnlyNexts
     glomitReversed := Generated.c17GlomitReversed
-    callbacks := Generated.c17Callbacks }
+    callbacks := Generated.c17Callbacks
+    callbackWrites := Generated.c17CallbackWrites }
 
 end Glom.C17
